@@ -22,9 +22,10 @@ Rec == ndJsonDeserialize(IOEnv.TRACE)
 VARIABLES tl,
           vreset,     \* index of the Reset event of the current trace (its `preds` = predictions of the code model)
           voptok,     \* model token key ("i:<name>", "o<k>") -> content token actually used by the driver
-          vskip       \* the current trace has been rejected: consume its remaining events
-tvars == <<tl, vdisk, vsess, vopen, vdirty, vcap, vextra, vreset, voptok, vskip>>
-Keep == UNCHANGED <<vreset, voptok, vskip>>
+          vskip,      \* the current trace has been rejected: consume its remaining events
+          vhaslf      \* the archive carries a (listfile) (starting archive, or produced by compact())
+tvars == <<tl, vdisk, vsess, vopen, vdirty, vcap, vextra, vreset, voptok, vskip, vhaslf>>
+Keep == UNCHANGED <<vreset, voptok, vskip, vhaslf>>
 
 Ev == Rec[tl]
 Is(k) == Ev.ev = k
@@ -32,11 +33,11 @@ Is(k) == Ev.ev = k
 T_Reset == /\ Is("Reset")
            /\ vdisk' = Ev.initial /\ vsess' = Ev.initial /\ vopen' = FALSE /\ vdirty' = FALSE
            /\ vcap' = Ev.hsize /\ vextra' = Ev.nspecial
-           /\ vreset' = tl /\ voptok' = Ev.toks /\ vskip' = FALSE
+           /\ vreset' = tl /\ voptok' = Ev.toks /\ vskip' = FALSE /\ vhaslf' = Ev.lf
 
 \* no action of MpqMap explains the event: report it, give up on this trace
 Reject(why) == /\ PrintT(<<"BAD", tl, why>>)
-               /\ vskip' = TRUE /\ UNCHANGED <<mvars, vreset, voptok>>
+               /\ vskip' = TRUE /\ UNCHANGED <<mvars, vreset, voptok, vhaslf>>
 
 T_Open  == /\ Is("Open")
            /\ IF Ev.res = "ok" /\ CanOpen THEN Open /\ Keep ELSE Reject("open")
@@ -44,7 +45,7 @@ T_Open  == /\ Is("Open")
 NoteTok == voptok' = [x \in DOMAIN voptok \cup {Ev.okey} |-> IF x = Ev.okey THEN Ev.tok ELSE voptok[x]]
 Refusal(r) == r \notin {"ok", "exists", "hang", "panic", "notfound"}        \* err:<Variant>
 T_Add   == /\ Is("Add")
-           /\ IF Ev.res = "ok" /\ CanAdd(Ev.n, Ev.rep) THEN Add(Ev.n, Ev.tok, Ev.rep) /\ NoteTok /\ UNCHANGED <<vreset, vskip>>
+           /\ IF Ev.res = "ok" /\ CanAdd(Ev.n, Ev.rep) THEN Add(Ev.n, Ev.tok, Ev.rep) /\ NoteTok /\ UNCHANGED <<vreset, vskip, vhaslf>>
               ELSE IF Ev.res = "exists" /\ CanAddFailExists(Ev.n, Ev.rep) THEN AddFailExists(Ev.n, Ev.rep) /\ Keep
               ELSE IF Refusal(Ev.res) /\ CanAddFailFull(Ev.n) THEN AddFailFull(Ev.n) /\ Keep
               ELSE Reject("add")
@@ -60,7 +61,10 @@ T_Rename == /\ Is("Rename")
                ELSE Reject("rename")
 
 T_Flush   == Is("Flush")   /\ IF Ev.res = "ok" /\ vopen THEN Flush /\ Keep ELSE Reject("flush")
-T_Compact == Is("Compact") /\ IF Ev.res = "ok" /\ vopen THEN Compact(Ev.hsize, Ev.nspecial) /\ Keep ELSE Reject("compact")
+\* the compacted file is produced by the builder, which generates a (listfile)
+T_Compact == Is("Compact") /\ IF Ev.res = "ok" /\ vopen
+                              THEN Compact(Ev.hsize, Ev.nspecial) /\ vhaslf' = TRUE /\ UNCHANGED <<vreset, voptok, vskip>>
+                              ELSE Reject("compact")
 T_Close   == Is("Close")   /\ IF Ev.res = "ok" /\ vopen THEN Close /\ Keep ELSE Reject("close")
 \* a fresh Archive::open of the file after the session was closed must succeed
 T_Check   == Is("Check")   /\ IF Ev.res = "ok" /\ ~vopen THEN UNCHANGED mvars /\ Keep ELSE Reject("check")
@@ -95,20 +99,26 @@ T_Read == /\ Is("Read") /\ Keep
                   /\ vsess' = vdisk'
                   /\ UNCHANGED <<vopen, vdirty, vcap, vextra>>
 
-\* D: list() after reopen shows exactly the present names (plus special files, logged with "?")
-Listed(e) == {e.names[j] : j \in 1..Len(e.names)}
+\* P (archives that carry a listfile): list() of the reopened archive names exactly the present files
+\* ("the readable names ... equal the result of applying the same operations to a plain map"; list is
+\* one of the property's observation points).  Without a listfile list() can only produce placeholder
+\* names: DRIFT at most.  Special files are logged with a leading "?" and ignored.
+Listed(e) == {x \in {e.names[j] : j \in 1..Len(e.names)} : x \in DOMAIN vdisk}
+ListModel(e) == LET p == PredFor(e) IN
+                IF p.kind # "map" THEN "nopred" ELSE IF Listed(e) = {p.list[j] : j \in 1..Len(p.list)} THEN "asmodel" ELSE "notmodel"
 T_List == /\ Is("List") /\ UNCHANGED mvars /\ Keep
-          /\ IF Ev.res = "ok" /\ Present(vdisk) = {x \in Listed(Ev) : x \in DOMAIN vdisk}
-             THEN TRUE ELSE PrintT(<<"DRIFT", tl, "list">>)
+          /\ IF Ev.res = "ok" /\ Present(vdisk) = Listed(Ev) THEN TRUE
+             ELSE IF vhaslf THEN PrintT(<<"BAD", tl, "list", ListModel(Ev), "">>)
+             ELSE PrintT(<<"DRIFT", tl, "list">>)
 
 \* D (only when the tree carries the optional verif_state() hook): after a call the number of occupied
 \* hash slots and the dirty flag of the real object equal the abstract map's
 StDrift == IF Ev.ev \in {"Add", "Remove", "Rename", "Flush"} /\ ~vskip' /\ Ev.st.has
               /\ (Ev.st.live # Cardinality(Present(vsess')) + vextra' \/ Ev.st.dirty # vdirty')
            THEN PrintT(<<"DRIFT", tl, "state">>) ELSE TRUE
-T_Skip == ~Is("Reset") /\ UNCHANGED <<mvars, vreset, voptok, vskip>>
+T_Skip == ~Is("Reset") /\ UNCHANGED <<mvars, vreset, voptok, vskip, vhaslf>>
 
-TInit == tl = 1 /\ MapInit(<<>>, 0, 0) /\ vreset = 0 /\ voptok = <<>> /\ vskip = FALSE
+TInit == tl = 1 /\ MapInit(<<>>, 0, 0) /\ vreset = 0 /\ voptok = <<>> /\ vskip = FALSE /\ vhaslf = FALSE
 TNext == /\ tl <= Len(Rec)
          /\ tl' = tl + 1
          /\ IF vskip /\ ~Is("Reset") THEN T_Skip
